@@ -736,6 +736,7 @@ func (st *State) execBuiltin(name string, call *ast.CallExpr) []Outcome {
 		return one(a)
 	case "delete":
 		m := st.eval(call.Args[0])
+		st.checkGuardedMutation(call.Args[0])
 		k := st.eval(call.Args[1])
 		st.mapDelete(m, st.typeOf(call.Args[0]), k, call.Pos(), exprStr(call.Args[0]))
 		return one()
@@ -1152,6 +1153,10 @@ func (st *State) havocTargets(env *SpecEnv, mods []*Clause, old *Snapshot) {
 		if h.two {
 			var in []string
 			for _, t := range h.targets {
+				if t.kind == "maprow" {
+					in = append(in, sEq("g_a", t.arr))
+					continue
+				}
 				in = append(in, sAnd(sEq("g_a", t.arr), sCmp("<=", t.lo, "g_i"), sCmp("<", "g_i", t.hi)))
 			}
 			st.assume(fmt.Sprintf("(forall ((g_a Int) (g_i Int)) (! (=> (and (< g_a %s) (not %s)) (= (select (select %s g_a) g_i) (select (select %s g_a) g_i))) :pattern ((select (select %s g_a) g_i))))",
@@ -1219,6 +1224,20 @@ func (st *State) resolveTarget(env *SpecEnv, e *SNode, add func(name, sort strin
 		// membership of reference g_a in s: some slot of (old) s holds it
 		cond := fmt.Sprintf("(not (forall ((g_mk Int)) (=> (and (<= %s g_mk) (< g_mk %s)) (not (= (select (select %s %s) g_mk) g_a)))))", sv.off(), sAdd(sv.off(), sv.length()), hel, sv.arr())
 		add(hname, ptrSort(comps[0]), false, target{kind: "fieldset", cond: cond})
+		return
+	}
+	if e.Op == "call" && e.Text == "mapOf" && len(e.Args) == 1 {
+		// every entry (and the size) of the map object m
+		base := env.eval(e.Args[0])
+		if base.K != KInt || base.T == nil || classify(base.T) != tcMap {
+			env.fail("mapOf needs a map")
+		}
+		dom, size, vals, vcomps, _, _ := mapHeapNames(base.T)
+		add(dom, "(Array Int (Array Int Bool))", true, target{kind: "maprow", arr: base.S, lo: "0", hi: "0"})
+		for i, vn := range vals {
+			add(vn, "(Array Int (Array Int "+vcomps[i].Sort+"))", true, target{kind: "maprow", arr: base.S, lo: "0", hi: "0"})
+		}
+		add(size, "(Array Int Int)", false, target{kind: "field", ref: base.S})
 		return
 	}
 	if e.Op == "call" && (e.Text == "anyof" || e.Text == "anyelems") && len(e.Args) == 1 && e.Args[0].Op == "sel" && e.Args[0].Args[0].Op == "id" {
@@ -1323,6 +1342,17 @@ func (st *State) resolveTarget(env *SpecEnv, e *SNode, add func(name, sort strin
 	if e.Op == "index" {
 		base := env.eval(e.Args[0])
 		idx := env.eval(e.Args[1])
+		if base.K == KInt && base.T != nil && classify(base.T) == tcMap {
+			// m[k]: the entry k of the map object m (its presence, its value, and the map's size)
+			dom, size, vals, vcomps, _, _ := mapHeapNames(base.T)
+			key := st.mapKeyTerm(idx, st.subst(base.T.Underlying().(*types.Map).Key()))
+			add(dom, "(Array Int (Array Int Bool))", true, target{kind: "elems", arr: base.S, lo: key, hi: sAdd(key, "1")})
+			for i, vn := range vals {
+				add(vn, "(Array Int (Array Int "+vcomps[i].Sort+"))", true, target{kind: "elems", arr: base.S, lo: key, hi: sAdd(key, "1")})
+			}
+			add(size, "(Array Int Int)", false, target{kind: "field", ref: base.S})
+			return
+		}
 		if base.K != KSlice {
 			env.fail("modifies target %s is not a slice element", e.String())
 		}
@@ -1362,7 +1392,7 @@ func (st *State) resolveTarget(env *SpecEnv, e *SNode, add func(name, sort strin
 
 func mapHeapNames(t types.Type) (dom, size string, vals []string, vcomps []Comp, kt, vt types.Type) {
 	m := t.Underlying().(*types.Map)
-	key := typeKey(t)
+	key := typeKey(m) // named map types (KV[K,V]) share the heap of their underlying map type
 	kt, vt = m.Key(), m.Elem()
 	dom = "M!" + key + "!dom"
 	size = "M!" + key + "!size"
@@ -1478,6 +1508,17 @@ func (st *State) checkGuardedRead(e ast.Expr) {
 			bt := st.typeOf(sel.X)
 			if _, structT := structOf(bt); structT != nil {
 				st.guardCheck(structT, sel.Sel.Name, Val{}, false, sel.Pos(), exprStr(sel))
+			}
+		}
+	}
+}
+
+// checkGuardedMutation: mutating the map (or other object) a guarded field refers to needs the write lock
+func (st *State) checkGuardedMutation(e ast.Expr) {
+	if sel, ok := ast.Unparen(e).(*ast.SelectorExpr); ok {
+		if s, ok := st.info().Selections[sel]; ok && s.Kind() == types.FieldVal {
+			if _, structT := structOf(st.typeOf(sel.X)); structT != nil {
+				st.guardCheck(structT, sel.Sel.Name, Val{}, true, sel.Pos(), exprStr(sel))
 			}
 		}
 	}
